@@ -4,6 +4,7 @@ from mypy.nodes import (
     AssignmentStmt,
     Block,
     CallExpr,
+    Expression,
     MypyFile,
     NameExpr,
     RefExpr,
@@ -11,7 +12,7 @@ from mypy.nodes import (
     WithStmt,
 )
 
-from refurb.checks.common import check_block_like
+from refurb.checks.common import ReadCountVisitor, check_block_like
 from refurb.error import Error
 
 
@@ -50,6 +51,15 @@ def check(node: Block | MypyFile, errors: list[Error]) -> None:
     check_block_like(check_stmts, node, errors)
 
 
+def is_read_in(name: NameExpr, nodes: list[Expression]) -> bool:
+    visitor = ReadCountVisitor(name)
+
+    for node in nodes:
+        visitor.accept(node)
+
+    return visitor.was_read
+
+
 def check_stmts(body: list[Statement], errors: list[Error]) -> None:
     assign: AssignmentStmt | None = None
 
@@ -60,7 +70,9 @@ def check_stmts(body: list[Statement], errors: list[Error]) -> None:
                     body=Block(body=[AssignmentStmt(lvalues=[NameExpr() as name])]),
                     expr=resources,
                 ) if (
-                    name.fullname and name.fullname == assign.lvalues[0].fullname  # type: ignore
+                    name.fullname
+                    and name.fullname == assign.lvalues[0].fullname  # type: ignore
+                    and not is_read_in(name, resources)
                 ):
                     # Skip if suppress() is one of the resources
 
